@@ -54,7 +54,13 @@ CLAIMED = {
 NOT_APPLICABLE = {
  "C16": "behaviour of the generated program at run time; no contract on gengo's own functions can express it (DESIGN.md section 5)",
 }
-NOT_YET = "check not yet built in this session (see DESIGN.md section 0 for the plan)"
+NOT_YET = "not built: see DESIGN.md section 0A.6"
+NOT_APPLICABLE.update({
+ "C10": "the statement is about the Go meaning of rendered text (compiles and evaluates to a deeply equal value); ValueLit is reflection-driven and every obligation would rest on assumed reflect contracts rather than on the code (DESIGN.md 0A.6)",
+ "C11": "the statement is about rendered text type-checking to an identical type; TypeLit runs over reflect / octohelm-x type adaptors that govc can only model as uninterpreted observers (DESIGN.md 0A.6)",
+ "C17": "behaviour of the generated program (compiles, copies without sharing); no contract on gengo's own functions expresses it; the thin totality clauses were not built (DESIGN.md 0A.6, section 5)",
+ "C18": "behaviour/shape of the generated program (compiles, DeepCopyAs semantics); no contract on gengo's own functions expresses it; the thin error-path clauses were not built (DESIGN.md 0A.6, section 5)",
+})
 
 props=[json.loads(l) for l in open('/verif/properties.jsonl')]
 hooks_commits = subprocess.run(["git","-C","/repo","log","--format=%h %s","--grep=^verif hooks"],capture_output=True,text=True).stdout.strip().splitlines()
